@@ -6,7 +6,7 @@
 /* arbitrary ghost state (the contract's requires clause then selects the admissible ones) */
 static void cqv_w_havoc(void) {
   for (int i = 0; i < CQV_WMAX; i++) {
-    cqv_w[i].kind = nondet_int(); cqv_w[i].last = nondet_int(); cqv_w[i].seen = nondet_unsigned(); cqv_w[i].elem = nondet_int();
+    cqv_w[i].kind = nondet_int(); cqv_w[i].last = nondet_int(); cqv_w[i].seen = nondet_unsigned(); cqv_w[i].elem = nondet_int(); cqv_w[i].lkind = nondet_int();
     cqv_w_left[i] = nondet_int();
   }
   cqv_w_depth = nondet_int(); cqv_w_pend = nondet_int(); cqv_w_next = nondet_int(); cqv_w_root = nondet_int();
@@ -45,6 +45,7 @@ void h_write_column_chunk(void) {
 }
 void h_write_row_group(void) {
   cqv_w_havoc(); thrift_encoder_t *enc = mk_enc(); MK(parquet_row_group_t, rg);
+  if (rg->num_columns > 0) { rg->columns = malloc((size_t)rg->num_columns * sizeof(parquet_column_chunk_t)); __CPROVER_assume(rg->columns != NULL); }
   write_row_group(enc, rg);
   CQV_CANARY("write_row_group returns");
 }
@@ -53,6 +54,8 @@ void h_write_file_metadata(void) {
   parquet_file_metadata_t *md = nondet_bool() ? malloc(sizeof(*md)) : NULL;
   carquet_buffer_t *buf = nondet_bool() ? malloc(sizeof(*buf)) : NULL;
   carquet_error_t *err = nondet_bool() ? malloc(sizeof(*err)) : NULL;
+  if (md && md->num_schema_elements > 0) { md->schema = malloc((size_t)md->num_schema_elements * sizeof(parquet_schema_element_t)); __CPROVER_assume(md->schema != NULL); }
+  if (md && md->num_row_groups > 0) { md->row_groups = malloc((size_t)md->num_row_groups * sizeof(parquet_row_group_t)); __CPROVER_assume(md->row_groups != NULL); }
   carquet_status_t st = parquet_write_file_metadata(md, buf, err);
   CQV_CANARY("parquet_write_file_metadata returns");
   if (st == CARQUET_OK) CQV_CANARY("parquet_write_file_metadata can succeed");
